@@ -37,54 +37,63 @@ Fits(c, t) == CASE c = "reg"      -> t = "REG"
                 [] c = "lab"      -> t = "LABEL"
 
 (* ---- preprocessing: data directives swallow their operand ---- *)
-PErr == [ok |-> FALSE, toks |-> << >>]
-POk(t) == [ok |-> TRUE, toks |-> t]
-Cons(pre, r) == IF r.ok THEN POk(pre \o r.toks) ELSE PErr
+(* results carry the diagnostic code the failure is reported with [descriptive]                *)
+PErr(code) == [ok |-> FALSE, toks |-> << >>, code |-> code]
+POk(t) == [ok |-> TRUE, toks |-> t, code |-> ""]
+Cons(pre, r) == IF r.ok THEN POk(pre \o r.toks) ELSE r
 RECURSIVE Pre(_)
 Pre(s) ==
   IF s = << >> THEN POk(<< >>)
   ELSE LET h == s[1] IN
        IF h = "END" THEN POk(<< >>)
        ELSE IF h = "FILL" THEN
-              IF Len(s) >= 2 /\ s[2] \in Num THEN Cons(<< "BYTE" >>, Pre(SubSeq(s, 3, Len(s)))) ELSE PErr
+              IF Len(s) >= 2 /\ s[2] \in Num THEN Cons(<< "BYTE" >>, Pre(SubSeq(s, 3, Len(s)))) ELSE PErr("preproc::bad_lit")
        ELSE IF h = "BLKW" THEN
               IF Len(s) >= 2 /\ s[2] \in Num
               THEN Cons(IF s[2] = "DEC" THEN << "BYTE" >> ELSE << "BYTE", "BYTE" >>, Pre(SubSeq(s, 3, Len(s))))
-              ELSE PErr
+              ELSE PErr("preproc::bad_lit")
        ELSE IF h = "STRINGZ" THEN
-              IF Len(s) >= 2 /\ s[2] = "STR" THEN Cons(<< "BYTE", "BYTE" >>, Pre(SubSeq(s, 3, Len(s)))) ELSE PErr
+              IF Len(s) >= 2 /\ s[2] = "STR" THEN Cons(<< "BYTE", "BYTE" >>, Pre(SubSeq(s, 3, Len(s)))) ELSE PErr("preproc::stringz")
        ELSE Cons(<< IF h = "BREAK" THEN "BP" ELSE h >>, Pre(Tail(s)))
 
-(* ---- the statement parser: st = [ok, exp, labeled, defs, refs, orig] ---- *)
-Fail(st) == [st EXCEPT !.ok = FALSE]
+(* ---- the statement parser: st = [ok, code, exp, labeled, defs, refs, orig] ---- *)
+Fail(st, code) == [st EXCEPT !.ok = FALSE, !.code = code]
+Eof == "parse::unexpected_eof"
+Unexp == "parse::unexpected_token"
 RECURSIVE Par(_, _)
 Par(s, st) ==
   IF s = << >> THEN
-     (IF st.exp # << >> \/ st.labeled THEN Fail(st) ELSE st)
+     (IF st.exp # << >> \/ st.labeled THEN Fail(st, Eof) ELSE st)
   ELSE
   LET t == s[1] rest == Tail(s) IN
   IF st.exp # << >> THEN
      (* inside a statement: the next operand *)
      IF Fits(st.exp[1], t)
      THEN Par(rest, [st EXCEPT !.exp = Tail(@), !.refs = IF t = "LABEL" THEN @ + 1 ELSE @])
-     ELSE Fail(st)
+     ELSE Fail(st, Unexp)
   ELSE
      (* at the start of a statement *)
-     CASE t = "LABEL" -> IF st.labeled THEN Fail(st)
+     CASE t = "LABEL" -> IF st.labeled THEN Fail(st, Unexp)
+                         ELSE IF st.defs >= 1 THEN Fail(st, "parse::duplicate_label")
                          ELSE Par(rest, [st EXCEPT !.labeled = TRUE, !.defs = @ + 1])
-       [] t \in {"DEC", "HEX", "STR", "REG"} -> Fail(st)
-       [] t = "ORIG" -> IF rest # << >> /\ rest[1] \in Num /\ ~st.orig
-                        THEN Par(Tail(rest), [st EXCEPT !.labeled = FALSE, !.orig = TRUE])
-                        ELSE Fail(st)
+       [] t \in {"DEC", "HEX", "STR", "REG"} -> Fail(st, Unexp)
+       [] t = "ORIG" -> IF rest = << >> THEN Fail(st, Eof)
+                        ELSE IF rest[1] \notin Num THEN Fail(st, Unexp)
+                        ELSE IF st.orig THEN Fail(st, "")          \* "Origin set twice." carries no code
+                        ELSE Par(Tail(rest), [st EXCEPT !.labeled = FALSE, !.orig = TRUE])
        [] t = "BP"   -> Par(rest, [st EXCEPT !.labeled = FALSE])
        [] t = "BYTE" -> Par(rest, [st EXCEPT !.labeled = FALSE])
        [] OTHER      -> Par(rest, [st EXCEPT !.labeled = FALSE, !.exp = Sig(t)])
 
-Start == [ok |-> TRUE, exp |-> << >>, labeled |-> FALSE, defs |-> 0, refs |-> 0, orig |-> FALSE]
+Start == [ok |-> TRUE, code |-> "", exp |-> << >>, labeled |-> FALSE, defs |-> 0, refs |-> 0, orig |-> FALSE]
 
-TokAccepts(s) ==
+(* verdict and, for a rejection, the diagnostic code ("" = a diagnostic without code) *)
+TokResult(s) ==
   LET p == Pre(s) IN
-  IF ~p.ok THEN FALSE
+  IF ~p.ok THEN [ok |-> FALSE, code |-> p.code]
   ELSE LET r == Par(p.toks, Start) IN
-       r.ok /\ r.defs <= 1 /\ (r.refs > 0 => r.defs = 1)
+       IF ~r.ok THEN [ok |-> FALSE, code |-> r.code]
+       ELSE IF r.refs > 0 /\ r.defs = 0 THEN [ok |-> FALSE, code |-> ""]     \* "Label not found" (backpatch)
+       ELSE [ok |-> TRUE, code |-> ""]
+TokAccepts(s) == TokResult(s).ok
 =============================================================================
